@@ -21,9 +21,19 @@ SLC = {'slider_attack_3': '__CPROVER_requires(sq < 64)\n__CPROVER_assigns()\n__C
        'slider_attack_5': '__CPROVER_requires(sq < 64)\n__CPROVER_assigns()\n__CPROVER_ensures(__CPROVER_return_value == (spec_rook_walk_cases(sq, blockers) | spec_bishop_walk_cases(sq, blockers)))\n'}
 
 
+# look-up contracts point-wise at the three ghost squares (consequence of the full contract by the lemma group geom/sees)
+def _slp(diag_expr):
+    return ('__CPROVER_requires(sq < 64)\n__CPROVER_assigns()\n' +
+            ''.join('__CPROVER_ensures(((__CPROVER_return_value >> %s) & 1) == (%s))\n' % (g, diag_expr.replace('G', g)) for g in ('G_F1', 'G_F2', 'G_F3')))
+SLP = {'slider_attack_3': _slp('G < 64 && spec_sees(1, sq, G, blockers)'), 'slider_attack_4': _slp('G < 64 && spec_sees(0, sq, G, blockers)'),
+       'slider_attack_5': _slp('G < 64 && (spec_sees(0, sq, G, blockers) || spec_sees(1, sq, G, blockers))')}
+
+
 def jobs(tier, seed):
     out = []
     LEAF = {}
+    h = 'uint32_t nondet_u32(void); uint64_t nondet_u64(void);\nvoid h_sees(void) { uint32_t s = nondet_u32(), t = nondet_u32(); uint64_t o = nondet_u64(); __CPROVER_assume(s < 64 && t < 64);\n  __CPROVER_assert(((spec_rook_walk(s, o) >> t) & 1) == spec_sees(0, s, t, o), "rook walk reaches t  <=>  aligned and nothing strictly between");\n  __CPROVER_assert(((spec_bishop_walk(s, o) >> t) & 1) == spec_sees(1, s, t, o), "bishop walk reaches t  <=>  aligned and nothing strictly between");' + CANARY + '}\n'
+    out.append(Job('geom/sees', tu('types.cpp'), ['from'], h, 'h_sees', spec=['geom.h'], timeout=1200, note='spec-side lemma: point-wise form of the ray walks'))
     h = 'uint32_t nondet_u32(void); uint64_t nondet_u64(void);\nvoid h_wc(void) { uint32_t s = nondet_u32(); uint64_t o = nondet_u64(); __CPROVER_assume(s < 64);\n  __CPROVER_assert(spec_rook_walk(s, o) == spec_rook_walk_cases(s, o), "rook walk: arithmetic form == case form");\n  __CPROVER_assert(spec_bishop_walk(s, o) == spec_bishop_walk_cases(s, o), "bishop walk: arithmetic form == case form");' + CANARY + '}\n'
     out.append(Job('geom/walk_cases', tu('types.cpp'), ['from'], h, 'h_wc', spec=['geom.h'], timeout=900, note='spec-side lemma: the ray walks written with a symbolic origin equal their case-by-origin form'))
     common = dict(spec=['movegen.h'], pre_text=EMIT_PRE, hooks=HOOKS, loop_contracts=True, expect=['loop_invariant_step'])
@@ -159,7 +169,7 @@ def jobs(tier, seed):
              ''.join('__CPROVER_ensures(((__CPROVER_return_value >> %s) & 1) == spec_forbidden_bit(%d, %s, %s))\n' % (g, side, g, FA) for g in ('G_F1', 'G_F2', 'G_F3')))
         h = ND + ('void h_fb(void) { for (uint32_t s = 0; s < 64; s++) { KNIGHT_MASK[s] = spec_knight(s); KING_MASK[s] = spec_king(s); }\n'
                   '  struct Position P = nondet_Position(); G_F1 = nondet_u32(); G_F2 = nondet_u32(); G_F3 = nondet_u32(); %s(&P);' % ff + CANARY + '}\n')
-        out.append(Job('leaf/forbidden_squares_' + sn, MTUS, [ff], h, 'h_fb', contracts=dict(SLC, **{ff: c}), nobody=list(SLC), enforce=ff, replace=list(SLC),
+        out.append(Job('leaf/forbidden_squares_' + sn, MTUS, [ff], h, 'h_fb', contracts=dict(SLP, **{ff: c}), nobody=list(SLP), enforce=ff, replace=list(SLP),
                        spec=['poswf_decl.h', 'movegen.h'], post_spec=['poswf.h'], pre_text='uint32_t G_F1, G_F2, G_F3;\n', timeout=2400,
                        unwindset=loops_unwind([('forbidden_squares', 11)]), route='closed-by-complete-unwinding(11): piece lists have 10 slots',
                        note='squares attacked by the enemy with the own king lifted off (union over the enemy piece lists) == attacked-from-the-square formulation, at three ghost squares'))
